@@ -38,6 +38,7 @@ func main() {
 			{crypto.DefaultSchemeID, 3, 2, "", 1, true}, {crypto.UnchainedSchemeID, 3, 3, "", 0, true},
 			{crypto.SigsOnG1ID, 4, 3, "", 0, false}, {crypto.DefaultSchemeID, 3, 2, "same", 0, false},
 			{crypto.UnchainedSchemeID, 4, 3, "add", 0, false}, {crypto.DefaultSchemeID, 4, 3, "remove", 0, false},
+			{crypto.DefaultSchemeID, 4, 3, "remove-first", 0, false}, {crypto.UnchainedSchemeID, 5, 3, "replace", 0, false},
 		}
 	} else {
 		for _, sc := range crypto.ListSchemes() {
@@ -52,9 +53,10 @@ func main() {
 					js = append(js, jobc{sc, n, t, "", b, n <= 4})
 				}
 			}
-			for _, rs := range []string{"same", "add", "remove", "thr+", "thr-"} {
+			for _, rs := range []string{"same", "add", "remove", "remove-first", "thr+", "thr-"} {
 				js = append(js, jobc{sc, 4, 3, rs, 1, false})
 			}
+			js = append(js, jobc{sc, 5, 3, "replace", 1, false})
 		}
 	}
 	var jobs []vlib.E1Job
@@ -72,6 +74,27 @@ func main() {
 		jobs = append(jobs, vlib.E1Job{Name: "c06-ttime/pedersen-bls-chained/n=3/t=2/reshare=same/offsets=[0s 2s 0s]/aligns=3", Bound: 0,
 			Run:     func(devs []vrt.Dev) *explore.Exec { return dkgrun.Judge(k, dkgrun.Run(k, pairs, devs, false), "c06") },
 			Labeled: func(devs []vrt.Dev) *explore.Exec { return dkgrun.Judge(k, dkgrun.Run(k, pairs, devs, true), "c06") }})
+	}
+	// a member whose clock lags starts its protocol run after the others' deals have arrived (resharings with more old
+	// dealers than new members)
+	{
+		sch, _ := crypto.SchemeFromName(crypto.DefaultSchemeID)
+		var pairs []*key.Pair
+		for i := 0; i < 4; i++ {
+			kp, _ := dnet.NewPair(sch, fmt.Sprintf("10.0.3.%d:7000", i+1))
+			pairs = append(pairs, kp)
+		}
+		for late := 0; late < 4; late++ {
+			if c.Quick() && late != 0 && late != 3 {
+				continue
+			}
+			off := make([]time.Duration, 4)
+			off[late] = -2 * time.Second
+			k := dkgrun.Cfg{Scheme: crypto.DefaultSchemeID, N: 4, T: 3, Reshare: "remove-first", Perms: [][]int{{0, 1, 2, 3}}, Offsets: off}
+			jobs = append(jobs, vlib.E1Job{Name: fmt.Sprintf("c06-late/n=4/t=3/reshare=remove-first/offsets=%v", off), Bound: 0,
+				Run:     func(devs []vrt.Dev) *explore.Exec { return dkgrun.Judge(k, dkgrun.Run(k, pairs, devs, false), "c06") },
+				Labeled: func(devs []vrt.Dev) *explore.Exec { return dkgrun.Judge(k, dkgrun.Run(k, pairs, devs, true), "c06") }})
+		}
 	}
 	for _, j := range js {
 		sch, _ := crypto.SchemeFromName(j.scheme)
